@@ -233,7 +233,8 @@ def run(prog, rep):
                     (fld, cnt, l2, how, why) = bad
                     rep.ob("C18.6", fn, inst, False, "line %d: %s (%s) is called while %s; %s dereferences that member at line %d (%s) without a NULL test: "
                            "the unwinding of a failed allocation crashes instead of reporting the failure" % (ln, cal, v, why, cal, l2, how), c, w, info=f0.name not in reach)
-    rep.floor("C18.6", 5)
+    # (the floor counts call sites; a `goto fail` single-exit form merges the two of p_shm_new into one)
+    rep.floor("C18.6", 4)
 
 
 def short(p):
